@@ -82,7 +82,8 @@ PointChecks(ev) ==
     [] o = "pt.in_subgroup" -> << <<"pre.oncurve", OnC(g, AffPt(g, ev.a))>>, <<"value", ev.out.v = (IF InSub(g, AffPt(g, ev.a)) THEN 1 ELSE 0)>> >>
     [] o \in {"mul.fast", "mul.gen"} ->
          LET Bs == IF ev.affine = 1 THEN AffPt(g, ev.base) ELSE JacPt(g, ev.base)
-             k  == Norm(ev.k)
+             \* double-and-add reads bits hb..0 of the scalar when the optional highest-bit argument is given
+             k  == IF Has(ev, "hb") THEN ModPow2(Norm(ev.k), ev.hb + 1) ELSE Norm(ev.k)
          IN << <<"pre.oncurve", OnC(g, Bs)>>,
                \* the accelerated entry points use the order-r eigenvalue / Frobenius: subgroup bases only
                <<"pre.subgroup", o = "mul.gen" \/ InSub(g, Bs)>>,
